@@ -65,7 +65,13 @@ pub fn verif_split_at<'a>(s: &'a str, mid: usize, Ghost(p): Ghost<Seq<char>>) ->
 { unimplemented!() }
 /// (R3) `lines.iter().any(|(_, state)| Painter::should_compute_syntax_highlighting(state, config))`
 #[verifier::external_body]
-pub fn verif_any_line_wants_syntax(lines: &[(String, State)], config: &Config) -> (r: bool) { unimplemented!() }
+pub fn verif_any_line_wants_syntax(lines: &[(String, State)], config: &Config) -> (r: bool) ensures r == any_line_wants_syntax(lines@, config) { unimplemented!() }
+/// some line of the block is of a kind whose styles ask for syntax highlighting (U50 has should_compute_syntax_highlighting under contract); uninterpreted
+pub uninterp spec fn any_line_wants_syntax(lines: Seq<(String, State)>, config: &Config) -> bool;
+/// every line has exactly one section, in the null syntax style
+pub open spec fn all_null_style(r: Seq<Vec<(SyntectStyle, &str)>>, n: int, config: &Config) -> bool {
+    forall|i: int| 0 <= i < n ==> (#[trigger] r[i])@.len() == 1 && r[i]@[0].0 == config.null_syntect_style
+}
 /// (R3) `v.last_mut().unwrap().push(x)`: the last vector grows by x, nothing else changes
 #[verifier::external_body]
 pub fn verif_push_to_last<'a>(v: &mut Vec<LineSections<'a, SyntectStyle>>, x: (SyntectStyle, &'a str))
@@ -84,12 +90,13 @@ pub open spec fn sections_spell_lines(r: Seq<Vec<(SyntectStyle, &str)>>, lines: 
 
 //@ fn src/paint.rs get_syntax_style_sections_for_lines
 //@| ensures sections_spell_lines(r@, lines@, lines@.len() as int),  // @C15,C01:syntax.sections.of.a.line.spell.exactly.the.line
+//@|         !any_line_wants_syntax(lines@, config) ==> all_null_style(r@, lines@.len() as int, config),  // @C15:lines.whose.styles.do.not.ask.for.syntax.are.not.highlighted.they.get.the.null.syntax.style.whatever.the.theme
 //@rewrite <<<lines .iter() .any(|(_, state)| Painter::should_compute_syntax_highlighting(state, config))>>> => <<<verif_any_line_wants_syntax(lines, config)>>>
 //@rewriteall <<<for (line, _) in lines.iter() {>>> => <<<for lp in it: lines.iter() { let line = &lp.0;>>>
 //@rewrite <<<line.split_at(line_syntax.len())>>> => <<<verif_split_at(line, verif_cow_len(&line_syntax), Ghost(cow_view(&line_syntax)))>>>
 //@rewrite <<<line_sections .last_mut() .unwrap() .push((config.null_syntect_style, plain));>>> => <<<verif_push_to_last(&mut line_sections, (config.null_syntect_style, plain));>>>
 //@loop 1| invariant sections_spell_lines(line_sections@, lines@, it.index@), it.seq().len() == lines@.len(), forall|i: int| 0 <= i < it.seq().len() ==> *(#[trigger] it.seq()[i]) == lines@[i],
-//@loop 2| invariant sections_spell_lines(line_sections@, lines@, it.index@), it.seq().len() == lines@.len(), forall|i: int| 0 <= i < it.seq().len() ==> *(#[trigger] it.seq()[i]) == lines@[i],
+//@loop 2| invariant all_null_style(line_sections@, it.index@ as int, config), sections_spell_lines(line_sections@, lines@, it.index@), it.seq().len() == lines@.len(), forall|i: int| 0 <= i < it.seq().len() ==> *(#[trigger] it.seq()[i]) == lines@[i],
 //@before <<<verif_push_to_last(>>>| proof { lemma_sect_text_push(line_sections@.last()@, (config.null_syntect_style, plain)); }
 //@after <<<line_sections.push(vec![(config.null_syntect_style, line.as_str())])>>>| ; proof { let v = line_sections@.last()@; assert(v =~= seq![v[0]]); lemma_sect_text_one(v[0]); }
 
